@@ -765,6 +765,79 @@ let run_case (t : string list) : string =
         out := (string_of_n b.Dialer.b_attempts ^ ":" ^ string_of_n b.Dialer.b_deadline) :: !out
       done;
       Stdlib.String.concat " " (Stdlib.List.rev !out)
+  | "netmodel" :: spec :: "|" :: ops ->
+      (* netmodel <id:name:alt|-:limit|-;...> | D a b [x] | X a b | R a | K a p aff | P a b | H a b | Q *)
+      let nodes =
+        Stdlib.List.map
+          (fun e ->
+            match Stdlib.String.split_on_char ':' e with
+            | [ id; name; alt; limit ] ->
+                ( n_of_string id,
+                  { NetModel.n_primary = n_of_string name;
+                    n_alt = (if alt = "-" then None else Some (n_of_string alt));
+                    n_limit = (if limit = "-" then None else Some (n_of_string limit));
+                    n_known = []; n_active = []; n_events = [] } )
+            | _ -> failwith "bad node spec")
+          (Stdlib.List.filter (fun x -> x <> "") (Stdlib.String.split_on_char ';' spec))
+      in
+      let w = ref { NetModel.w_net = nodes; w_cut = [] } in
+      let listing () =
+        Stdlib.String.concat ";"
+          (Stdlib.List.map
+             (fun (id, _) ->
+               let n = match NetModel.getn id !w.NetModel.w_net with Some n -> n | None -> failwith "gone" in
+               let l = Stdlib.List.sort compare (Stdlib.List.map int_of_n n.NetModel.n_active) in
+               string_of_n id ^ ":[" ^ Stdlib.String.concat "," (Stdlib.List.map string_of_int l) ^ "]")
+             nodes)
+      in
+      (* group tokens into ops *)
+      let rec group acc cur l =
+        match l with
+        | [] -> Stdlib.List.rev (if cur = [] then acc else Stdlib.List.rev cur :: acc)
+        | "/" :: t -> group (if cur = [] then acc else Stdlib.List.rev cur :: acc) [] t
+        | x :: t -> group acc (x :: cur) t
+      in
+      let out =
+        Stdlib.List.map
+          (fun o ->
+            let op =
+              match o with
+              | [ "D"; a; b ] -> NetModel.Dial (n_of_string a, n_of_string b, None)
+              | [ "D"; a; b; x ] -> NetModel.Dial (n_of_string a, n_of_string b, Some (n_of_string x))
+              | [ "X"; a; b ] -> NetModel.Disconnect (n_of_string a, n_of_string b)
+              | [ "R"; a ] -> NetModel.Restart (n_of_string a)
+              | [ "K"; a; p; aff ] ->
+                  NetModel.SetKnown
+                    ( n_of_string a, n_of_string p,
+                      match aff with
+                      | "high" -> Some Dialer.High
+                      | "allowed" -> Some Dialer.Allowed
+                      | "never" -> Some Dialer.Never
+                      | _ -> None )
+              | [ "P"; a; b ] -> NetModel.Partition (n_of_string a, n_of_string b)
+              | [ "H"; a; b ] -> NetModel.Heal (n_of_string a, n_of_string b)
+              | [ "Q" ] -> NetModel.Quiesce
+              | _ -> failwith ("bad net op " ^ Stdlib.String.concat " " o)
+            in
+            let w', res = NetModel.step !w op in
+            w := w';
+            let r =
+              match res with
+              | Some (NetModel.DialOk b) -> "ok" ^ string_of_n b
+              | Some NetModel.DialErr -> "err"
+              | None -> "-"
+            in
+            r ^ " L=" ^ listing ())
+          (group [] [] ops)
+      in
+      Stdlib.String.concat " | " out
+  | [ "advhello"; primary; alt; sni; certname ] ->
+      let b =
+        { NetModel.n_primary = n_of_string primary;
+          n_alt = (if alt = "-" then None else Some (n_of_string alt));
+          n_limit = None; n_known = []; n_active = []; n_events = [] }
+      in
+      if NetModel.adversarial_hello_accepted b (n_of_string sni) (n_of_string certname) then "accepted" else "rejected"
   | [ "version"; v ] ->
       (match Wire.version_new (n_of_string v) with
        | Base.Ok v -> "OK " ^ string_of_n v
